@@ -218,7 +218,7 @@ def run(tier: str) -> int:
 
 SNIPPETS = [
     ("para", "Plain paragraph text here."), ("escapes", "1\\. not a list"), ("escapes2", "\\# not heading and 2\\) paren"), ("heading", "## Heading two"),
-    ("setext", "Setext title\n==="), ("setext2", "Setext title\nsecond line of it\n---"), ("heading_bs", "# Windows drive C:\\"), ("heading_br", "## Heading with break\\\nnext"), ("bullet", "- item a\n- item b"), ("bullet_esc", "- 2\\. text in item\n- b"), ("ordered", "3. three\n4. four"),
+    ("setext", "Setext title\n==="), ("setext2", "Setext title\nsecond line of it\n---"), ("ordered0", "0. zero\n1. one"), ("ordered_paren", "7) seven\n8) eight"), ("heading_bs", "# Windows drive C:\\"), ("heading_br", "## Heading with break\\\nnext"), ("bullet", "- item a\n- item b"), ("bullet_esc", "- 2\\. text in item\n- b"), ("ordered", "3. three\n4. four"),
     ("quote", "> quoted line"), ("code", "```\ncode\n```"), ("table", "| A | B |\n|---|---|\n| x | y |"), ("hr", "* * *"),
     ("def", "[ref]: http://example.com/x \"T\""), ("footnote", "[^n]: Note text."), ("html", "<div>inline html</div> text"),
     ("hardbreak", "line one\\\nline two"), ("task", "- [ ] todo\n- [x] done"), ("alert", "> [!NOTE]\n> Body."), ("link", "See [ref] and [t](http://u.v \"ti\")."),
